@@ -44,6 +44,8 @@ def cases(draw):
         "hardlink": draw(st.booleans()),
         "index": draw(st.booleans()),
         "form": draw(st.sampled_from(["closed", "expand"])),
+        # the target store already holds an overlapping tree (objects shared with the new data)
+        "pre": draw(st.sampled_from([False, False, True])),
         "only_n": None,
     }
 
@@ -118,6 +120,13 @@ def make_template(case, tpl):
             ids += sorted(set(man.values()))
         with open(os.path.join(tpl, "request.txt"), "w", encoding="utf-8") as f:
             f.write("\n".join(ids) + "\n")
+    if case.get("pre"):
+        items = sorted(case["tree"].items())
+        pre_tree = dict(items[: max(1, len(items) // 2)])
+        pre_tree["zz-extra"] = "p:hello"
+        gen.materialise(pre_tree, os.path.join(tpl, "pre-src"))
+        tgt = ops.make_odb("local", os.path.join(tpl, "remote" if case["scenario"] == "S3" else "cache"))
+        ops.stage_transfer(tgt, os.path.join(tpl, "pre-src"))
     return flat
 
 
@@ -265,6 +274,8 @@ def run_case(case, ctx):  # noqa: C901
         man = ref.tree_manifest(flat)
         if case["scenario"] in ("S1", "S3", "S4"):
             want = set(man.values()) | {ref.ref_tree_oid(man)}
+            if case.get("pre"):
+                want |= ref.store_ids(target_store(case, tpl))
             if ref_ids != want:
                 viols.append(Viol("uninterrupted:contents-differ",
                                   f"uninterrupted run left {sorted(ref_ids)} expected {sorted(want)}"))
@@ -317,6 +328,8 @@ def run_case(case, ctx):  # noqa: C901
         cl = [f"scenario={case['scenario']}"] + gen.tree_traits(case["tree"])
         if case["scenario"] == "S1" and case["hardlink"]:
             cl.append("hardlink")
+        if case.get("pre"):
+            cl.append("target-prepopulated")
         if case["scenario"] == "S3":
             cl += [f"form={case['form']}", "dest-index" if case["index"] else "no-index"]
         # one digest for the scenario itself so samples show up
